@@ -1,83 +1,131 @@
 (* C16 — Sync adopts only verified, strictly longer chains within the rollback window.
-   Only statements; each is closed by a lemma proved in theories/. [valid chain d] is the verification oracle:
-   every account block of d and d itself pass Supervisor.ApplyBlock / ApplyMomentum on top of [chain]. *)
+   Only statements; each is closed by a lemma proved in theories/. The verification oracles: [bvalid chain pool b] =
+   Supervisor.ApplyBlock accepts account block b on top of [chain] with the unconfirmed pool [pool];
+   [mvalid chain d] = Supervisor.ApplyMomentum accepts the delivered momentum d on top of [chain].
+   The node is (own momentums, identifiers of the pooled unconfirmed account blocks). InsertChain does NOT verify a
+   delivered block that has a patch in the pool; [pool_verified] is the invariant that makes this sound: every
+   pooled block passed verification on the chain or on an earlier state of it that the chain still extends. The
+   last argument [true] of insert_chain is accountPool.DeleteMomentum dropping the whole pool on a rollback. *)
 From ZV Require Import Prelude GoSem Sync SyncProofs.
 Open Scope Z_scope.
 
 (* Whatever is delivered, the resulting chain is a prefix of the old chain extended ONLY by momentums that, at the
-   moment they were appended, had a known previous momentum, passed full verification and extended the frontier. *)
+   moment they were appended, had a known previous momentum, had every account block verified (then, or while pooled
+   on a state the chain still extends), passed full verification and extended the frontier; and the pool invariant
+   holds again afterwards. *)
 Theorem C16_only_verified :
-  forall (valid : list smom -> smom -> bool) fixed c ds r c',
-  insert_chain valid fixed c ds = (r, c') ->
-  exists kept, is_prefix kept c /\ grown valid kept c'.
+  forall (bvalid : list smom -> list blk -> blk -> bool) (mvalid : list smom -> dmom -> bool) fixed c p ds r c' p',
+  pool_verified bvalid c p ->
+  insert_chain bvalid mvalid fixed true c p ds = (r, (c', p')) ->
+  exists kept, is_prefix kept c /\ grown bvalid mvalid kept c' /\ pool_verified bvalid c' p'.
 Proof. exact only_verified. Qed.
 
-(* On a verification failure the reported index is the position, in the delivered batch, of the element that failed
-   on top of the chain the node now holds (everything appended before it was verified, by C16_only_verified). *)
+(* Over whole histories of a syncing node (deliveries through InsertChain, broadcast account blocks through
+   AddAccountBlocks), starting with an empty pool: every momentum on the chain is one the node started with or was
+   adopted after full verification of itself and of all its account blocks, and every pooled block is verified. *)
+Theorem C16_history_only_verified :
+  forall (bvalid : list smom -> list blk -> blk -> bool) (mvalid : list smom -> dmom -> bool) c0 ops,
+  Forall (justified bvalid mvalid c0) (fst (run bvalid mvalid (c0, []) ops)) /\
+  pool_verified bvalid (fst (run bvalid mvalid (c0, []) ops)) (snd (run bvalid mvalid (c0, []) ops)).
+Proof. exact history_only_verified. Qed.
+
+(* When own momentums are abandoned nothing of the old pool takes part: the result is that of the apply loop started
+   on the rolled-back chain with an EMPTY pool (every delivered account block is verified on the new branch). *)
+Theorem C16_rollback_empties_pool :
+  forall (bvalid : list smom -> list blk -> blk -> bool) (mvalid : list smom -> dmom -> bool) fixed c p ds r c' p',
+  insert_chain bvalid mvalid fixed true c p ds = (r, (c', p')) -> ~ is_prefix c c' ->
+  exists target start rest,
+    skip_known c ds 0 = (start, rest) /\ rest <> [] /\
+    apply_all bvalid mvalid (rollback_to c (s_height target)) [] rest start = (r, (c', p')).
+Proof. exact rollback_empties_pool. Qed.
+
+(* ... and this is needed: if pooled blocks survived the rollback (DeleteMomentum keeping entries), a side chain
+   carrying a block that was verified only against the abandoned branch is adopted with that block unverified. *)
+Theorem C16_pool_kept_across_rollback_refuted :
+  exists bvalid mvalid c p ds c' p',
+    wf_chain c /\ pool_verified bvalid c p /\
+    insert_chain bvalid mvalid true false c p ds = (ICOk, (c', p')) /\
+    exists d b, In d ds /\ In (d_mom d) c' /\ In b (d_blocks d) /\ ~ verified_on bvalid c' b.
+Proof. exact pool_kept_refuted. Qed.
+
+(* On a verification failure the reported index is the position, in the DELIVERED batch (known prefix included), of
+   the element that failed on top of the chain the node now holds: one of its account blocks without a patch in the
+   pool, or the momentum itself (everything appended before it was verified, by C16_only_verified). *)
 Theorem C16_failure_index :
-  forall (valid : list smom -> smom -> bool) fixed c ds i c',
-  insert_chain valid fixed c ds = (ICErr i EInvalid, c') ->
+  forall (bvalid : list smom -> list blk -> blk -> bool) (mvalid : list smom -> dmom -> bool) fixed clears c p ds i c' p',
+  insert_chain bvalid mvalid fixed clears c p ds = (ICErr i EInvalid, (c', p')) ->
   exists pre d post, ds = pre ++ d :: post /\ i = Z.of_nat (length pre) /\
-                     known_prev c' d && valid c' d = false.
+    ((exists b, In b (d_blocks d) /\ pooled b p' = false /\ bvalid c' p' b = false) \/
+     known_prev c' (d_mom d) && mvalid c' d = false).
 Proof. exact failure_index. Qed.
 
 (* Re-delivering momentums the node already has (same hash at the same height) changes nothing and reports (0, ok). *)
 Theorem C16_idempotent :
-  forall (valid : list smom -> smom -> bool) fixed c ds, ds <> [] ->
-  Forall (fun d => exists our, by_height c (s_height d) = Some our /\ s_hash our = s_hash d) ds ->
-  insert_chain valid fixed c ds = (ICOk, c).
+  forall (bvalid : list smom -> list blk -> blk -> bool) (mvalid : list smom -> dmom -> bool) fixed clears c p ds, ds <> [] ->
+  Forall (fun d => exists our, by_height c (s_height (d_mom d)) = Some our /\ s_hash our = s_hash (d_mom d)) ds ->
+  insert_chain bvalid mvalid fixed clears c p ds = (ICOk, (c, p)).
 Proof. exact idempotent. Qed.
 
 (* If any own momentum is abandoned (the old chain is not a prefix of the new one), then the first unknown delivered
    momentum sits directly on an own momentum at most 30 below the frontier, and the batch ends above the frontier. *)
 Theorem C16_leave_implies :
-  forall (valid : list smom -> smom -> bool) fixed c ds r c',
-  insert_chain valid fixed c ds = (r, c') -> ~ is_prefix c c' ->
+  forall (bvalid : list smom -> list blk -> blk -> bool) (mvalid : list smom -> dmom -> bool) fixed clears c p ds r c' p',
+  insert_chain bvalid mvalid fixed clears c p ds = (r, (c', p')) -> ~ is_prefix c c' ->
   exists start head rest' fr target,
     skip_known c ds 0 = (start, head :: rest') /\ frontier c = Some fr /\
-    by_height c (u64 (s_height head - 1)) = Some target /\ prev_is head target = true /\
+    by_height c (u64 (s_height (d_mom head) - 1)) = Some target /\ prev_is (d_mom head) target = true /\
     u64 (s_height fr - s_height target) <= 30 /\
-    s_height fr < s_height (last (head :: rest') head).
+    s_height fr < s_height (d_mom (last (head :: rest') head)).
 Proof. exact leave_implies. Qed.
 
 (* After fix 777dfea no delivered batch makes InsertChain panic (empty batch, first unknown momentum above
    frontier+1 or at height 0, any heights, any hashes) ... *)
 Theorem C16_no_panic :
-  forall (valid : list smom -> smom -> bool) c ds, fst (insert_chain valid true c ds) <> ICPanic.
+  forall (bvalid : list smom -> list blk -> blk -> bool) (mvalid : list smom -> dmom -> bool) clears c p ds,
+  fst (insert_chain bvalid mvalid true clears c p ds) <> ICPanic.
 Proof. exact no_panic. Qed.
 
 (* ... record of finding F9 (fixed in /repo): before the fix both inputs panicked, on a goroutine without recover *)
 Theorem C16_panic_before_fix_refuted :
-  (exists c ds, wf_chain c /\ ds <> [] /\ fst (insert_chain (fun _ _ => true) false c ds) = ICPanic) /\
-  (exists c, wf_chain c /\ fst (insert_chain (fun _ _ => true) false c []) = ICPanic).
+  (exists c ds, wf_chain c /\ ds <> [] /\ fst (insert_chain all_b all_m false true c [] ds) = ICPanic) /\
+  (exists c, wf_chain c /\ fst (insert_chain all_b all_m false true c [] []) = ICPanic).
 Proof. exact panic_before_fix. Qed.
 
 (* KNOWN FINDING F11 (key insertchain-rollback-before-verify): "leaves its chain ONLY for a delivered chain whose
    every momentum passes verification" does not hold: the rollback happens before anything is verified. Witness:
    own chain 1..5, delivered fork 3'..6' from momentum 2 whose second element is invalid -> the node keeps 1,2,3'. *)
 Theorem C16_leave_only_for_valid_refuted :
-  exists valid c ds r c',
-    wf_chain c /\ insert_chain valid true c ds = (r, c') /\
+  exists bvalid mvalid c ds r c' p',
+    wf_chain c /\ insert_chain bvalid mvalid true true c [] ds = (r, (c', p')) /\
     ~ is_prefix c c' /\ (exists i, r = ICErr i EInvalid) /\ (length c' < length c)%nat.
 Proof. exact leave_only_for_valid_refuted. Qed.
 
 (* ... and holds for exactly the complementary class: when the unknown part of the delivered batch is a linked chain
-   that passes verification in order on top of the fork point, leaving ends with ALL of it adopted, strictly longer. *)
+   whose account blocks and momentums pass verification in order on top of the fork point (starting from the emptied
+   pool), leaving ends with ALL of it adopted, strictly longer. *)
 Theorem C16_leave_only_for_valid_partial :
-  forall (valid : list smom -> smom -> bool) c ds r c',
+  forall (bvalid : list smom -> list blk -> blk -> bool) (mvalid : list smom -> dmom -> bool) c p ds r c' p',
   wf_chain c ->
-  insert_chain valid true c ds = (r, c') -> ~ is_prefix c c' ->
+  insert_chain bvalid mvalid true true c p ds = (r, (c', p')) -> ~ is_prefix c c' ->
   forall start head rest', skip_known c ds 0 = (start, head :: rest') ->
-  linked (head :: rest') -> Forall in_range (head :: rest') ->
-  (forall target, by_height c (u64 (s_height head - 1)) = Some target ->
-                  valid_in_order valid (rollback_to c (s_height target)) (head :: rest')) ->
+  linked (map d_mom (head :: rest')) -> Forall in_range (map d_mom (head :: rest')) ->
+  (forall target, by_height c (u64 (s_height (d_mom head) - 1)) = Some target ->
+                  valid_in_order bvalid mvalid (rollback_to c (s_height target)) [] (head :: rest')) ->
   exists target,
-    by_height c (u64 (s_height head - 1)) = Some target /\
-    r = ICOk /\ c' = rollback_to c (s_height target) ++ head :: rest' /\ (length c < length c')%nat.
+    by_height c (u64 (s_height (d_mom head) - 1)) = Some target /\
+    r = ICOk /\ c' = rollback_to c (s_height target) ++ map d_mom (head :: rest') /\ (length c < length c')%nat.
 Proof. exact leave_only_for_valid_partial. Qed.
 
-(* non-vacuity: a valid longer fork is adopted *)
+(* non-vacuity: a valid longer fork is adopted; a pooled block delivered in an extension is not verified again *)
 Example C16_adopt_example :
-  insert_chain (fun _ _ => true) true ex_local ex_side =
-  (ICOk, [mkS 1 0 1; mkS 2 1 2; mkS 13 2 3; mkS 14 13 4; mkS 15 14 5; mkS 16 15 6]).
+  insert_chain all_b all_m true true ex_local [] ex_side =
+  (ICOk, ([mkS 1 0 1; mkS 2 1 2; mkS 13 2 3; mkS 14 13 4; mkS 15 14 5; mkS 16 15 6], [])).
 Proof. vm_compute. reflexivity. Qed.
+Example C16_pooled_block_skipped_example :
+  insert_chain (fun _ _ _ => false) all_m true true ex_local [b77] [mkD (mkS 6 5 6) [b77]] =
+  (ICOk, (ex_local ++ [mkS 6 5 6], [])).
+Proof. vm_compute. reflexivity. Qed.
+Example C16_pool_dropped_example :
+  insert_chain ex_ack5 all_m true true ex_local [b77] ex_side77 =
+  (ICErr 1 EInvalid, ([mkS 1 0 1; mkS 2 1 2; mkS 13 2 3], [])).
+Proof. exact pool_dropped_example. Qed.
